@@ -465,6 +465,10 @@ type c44Step struct {
 	Method    string            `json:"method"` // rebuild | reload | unpublish | release
 	After     []c44Tun          `json:"tunnelsAfter"`
 	Inject    map[string]string `json:"injectInWindow,omitempty"`
+	// reload only: before the valid edit, the file holds RejectedList plus one entry that does
+	// not validate, and a reload is requested (it must be refused and change nothing)
+	Rejected     bool     `json:"rejectedEditFirst,omitempty"`
+	RejectedList []c44Tun `json:"rejectedEditTunnels,omitempty"`
 }
 
 type c44Scenario struct {
@@ -632,6 +636,19 @@ func (r *c44Runner) apply(st *c44Step, before []c44Tun) {
 		r.c.RebuildTunnels(r.h.tunnels(st.After))
 	case "reload":
 		// somebody edits the file, then SIGHUP / POST /api/reload
+		if st.Rejected {
+			bad := client.VerifNewConfigAt(r.path)
+			cc := r.c.GetCurrentConfig()
+			bad.Apex, bad.Certificate, bad.PrivKey = cc.Apex, cc.Certificate, cc.PrivKey
+			bad.Tunnels = append(r.h.tunnels(st.RejectedList), client.Tunnel{Target: "ftp://127.0.0.1:21", Hostname: "does-not-validate"})
+			if err := bad.VerifWriteFile(); err != nil {
+				r.t.Fatalf("machinery: cannot write edited config: %v", err)
+			}
+			r.c.VerifDoReload(ctx)
+			r.rec.Add("rejected_reloads", 1)
+			r.cur = before
+			r.checkAll("after a reload of a file that does not validate (nothing may change)", nil)
+		}
 		nc := client.VerifNewConfigAt(r.path)
 		cur := r.c.GetCurrentConfig()
 		nc.Apex, nc.Certificate, nc.PrivKey, nc.Tunnels = cur.Apex, cur.Certificate, cur.PrivKey, r.h.tunnels(st.After)
@@ -742,6 +759,9 @@ func runC44(t interface {
 		r.apply(st, before)
 		r.cur = st.After
 		labels := []string{"mode:" + sc.Mode, "method:" + st.Method}
+		if st.Rejected {
+			labels = append(labels, "reload:rejected-edit-first")
+		}
 		for _, m := range st.Mutations {
 			labels = append(labels, "mutation:"+m)
 		}
@@ -829,6 +849,20 @@ func genScenario(t *rapid.T, h *c44Harness) *c44Scenario {
 		changed, removed := changedHosts(cur, next, h)
 		if len(changed) == 0 && len(removed) > 0 && len(next) == len(cur)-len(removed) && sameExcept(cur, next, removed) {
 			st.Method = rapid.SampledFrom([]string{"rebuild", "reload", "unpublish", "release"}).Draw(t, "removalMethod")
+		}
+		if st.Method == "reload" && rapid.IntRange(0, 1).Draw(t, "rejectedEditFirst") == 0 {
+			// the file is first edited into something the client must refuse (one entry has an
+			// unsupported target scheme) - that reload must leave everything as it was - and is
+			// corrected afterwards
+			st.Rejected = true
+			switch rapid.IntRange(0, 2).Draw(t, "rejectedShape") {
+			case 0:
+				st.RejectedList = next
+			case 1:
+				st.RejectedList, _ = h.mutate(t, next)
+			default:
+				st.RejectedList, _ = h.mutate(t, cur)
+			}
 		}
 		if sc.Mode == "window" {
 			st.Inject = map[string]string{}
